@@ -168,6 +168,7 @@ type Scenario struct {
 	CleanSort bool             `json:"clean_sort"`
 	CleanOpts bool             `json:"clean_opts"`
 	NoClean   bool             `json:"no_clean"`
+	CleanTwice bool            `json:"clean_twice"` // Clean is called twice in a row in TestMain
 	Roots     []string         `json:"roots"`
 }
 
@@ -211,6 +212,7 @@ type RunResult struct {
 	Final    map[string]vkit.Digest // taken by the parent after the child exited
 	CleanOut string
 	Summary  *Summary
+	Summary2 *Summary // what the second Clean call printed (CleanTwice)
 	PreFiles map[string]map[string]string // root -> rel -> content right before Clean
 	Stderr   string
 	Err      error
@@ -322,6 +324,14 @@ func (p *Program) RunChild(o RunOpt) *RunResult {
 			}
 		}
 		sort.Strings(res.Summary.Files)
+		if f2, err := os.ReadFile(filepath.Join(outdir, "clean2.out")); err == nil {
+			res.Summary2 = ParseSummary(string(f2))
+			for i, p := range res.Summary2.Files {
+				if !filepath.IsAbs(p) {
+					res.Summary2.Files[i] = filepath.Join(cmd.Dir, p)
+				}
+			}
+		}
 	}
 	return res
 }
